@@ -57,4 +57,24 @@ MUTANTS = [
          old='"expected a package name"', new='"expected package name"'),
     dict(name="gram-block-loop-skips-advance", prop="C04", units=["u_grammar"], file="crates/parser/src/expr.rs", expect=1,
          old='p.advance_with_error("expected `,` or `|` after closure parameter");', new='p.error("expected `,` or `|` after closure parameter");'),
+    # ---- U-LINK / U-ART
+    dict(name="link-no-hash-compare", prop="C15", units=["u_link"], file="crates/compiler/src/pipeline/separate.rs", expect=1,
+         old="            if &dep_unit.interface.interface_hash != expected_hash {", new="            if &dep_unit.interface.package != expected_hash {"),
+    dict(name="link-missing-dep-skipped", prop="C15", units=["u_link"], file="crates/compiler/src/pipeline/separate.rs", expect=1,
+         old="""            let Some(dep_unit) = by_name.get(dep) else {
+                return Err(compile_error(format!(
+                    "package {} depends on missing package {}",
+                    pkg, dep
+                )));
+            };""", new="""            let Some(dep_unit) = by_name.get(dep) else {
+                continue;
+            };"""),
+    dict(name="link-duplicate-core-last-wins", prop="C15", units=["u_link"], file="crates/compiler/src/pipeline/separate.rs", expect=1,
+         old="        if by_name.contains_key(&core.package) {\n            return Err(", new="        if false {\n            return Err("),
+    dict(name="art-hash-wrong-component", prop="C15", units=["u_art"], file="crates/compiler/src/artifact.rs", expect=1,
+         old="            compiler_abi: self.compiler_abi,\n            package: &self.package,", new="            compiler_abi: self.format_version,\n            package: &self.package,"),
+    dict(name="art-validate-skips-abi", prop="C15", units=["u_art"], file="crates/compiler/src/artifact.rs", expect=1,
+         old="        self.format_version == FORMAT_VERSION\n            && self.compiler_abi == COMPILER_ABI\n            && self.validate_hash()", new="        self.format_version == FORMAT_VERSION\n            && self.validate_hash()"),
+    dict(name="art-loader-skips-hash-check", prop="C15", units=["u_art"], file="crates/compiler/src/pipeline/separate.rs", expect=1,
+         old="        if !unit.validate_hash() {", new="        if false && !unit.validate_hash() {"),
 ]
